@@ -4,7 +4,7 @@
    the token stream of the lexer (hook types.VerifTokens: kind, unescaped text, reader line and column after each
    token, and how the stream ended) and the outcome of types.Parse (class, line, column, and the value). *)
 From Coq Require Import ZArith NArith Bool List.
-From PcoreV Require Import Model.Base Model.Lexer Model.Parser Model.Resolve Model.ResolveObj.
+From PcoreV Require Import Model.Base Model.Lexer Model.Parser Model.Resolve Model.ResolveObj Model.ResolveHier.
 Import ListNotations.
 Open Scope Z_scope.
 
@@ -161,3 +161,60 @@ Definition params_check (c : c06xcase) : bool :=
   end.
 
 Definition params_mismatches (cs : list c06xcase) : list N := failing params_check cs.
+
+(* ---- Object types with ancestors, Like types (Model/ResolveHier.v; generators harness/cmd/c06/genhier.go) ------
+
+   Equality cases: Context.ParseType on one text that declares an Object type with 0..3 ancestors (type set root first,
+   leaf first, the parent over an alias, or every parent written in place); qc_chain = the type first, then its
+   parent, ...; every level with its name, its members x / y and its `equality`.  Classes: 0 a type
+   | 1 EQUALITY_ATTRIBUTE_NOT_FOUND | 2 EQUALITY_NOT_ATTRIBUTE | 3 EQUALITY_ON_CONSTANT | 4 EQUALITY_REDEFINED (then
+   qc_definer = the Name() of the `including_parent` argument of the issue: the ancestor findEqualityDefiner walked to)
+   | 6 Go runtime fault, raw or wrapped | 9 no answer within the deadline | 7 anything else. *)
+Definition sx : str := [120]%N.
+Definition sy : str := [121]%N.
+Definition sz : str := [122]%N.
+
+Record c06qcase := mkQCase { qc_chain : list level; qc_class : nat; qc_definer : str }.
+
+Definition equality_check (c : c06qcase) : bool :=
+  match resolve_chain (qc_chain c) with
+  | QOk => Nat.eqb (qc_class c) 0
+  | QErr EqNotFound => Nat.eqb (qc_class c) 1
+  | QErr EqNotAttribute => Nat.eqb (qc_class c) 2
+  | QErr EqOnConstant => Nat.eqb (qc_class c) 3
+  | QRedefined d => Nat.eqb (qc_class c) 4 && str_eqb d (qc_definer c)
+  | QFault => Nat.eqb (qc_class c) 6
+  | QOutOfFuel => Nat.eqb (qc_class c) 9
+  end.
+
+Definition equality_mismatches (cs : list c06qcase) : list N := failing equality_check cs.
+
+(* Like cases: Context.ParseType on a text in which Like[base, navigation] is the parent of an in-place Object type
+   (lc_kind 0: like_parent) or the type of an attribute that has a value (lc_kind 1: like_resolve, then the instance
+   test, which is not modelled: a type or TYPE_MISMATCH); lc_base = the base type as the navigation meets it (an alias
+   of a type set is LAlias when it is declared before the user, LAliasUnresolved otherwise); lc_parts = the parts of the
+   navigation, each with the result of strconv.ParseInt(part, 0, 64).  Classes: 0 a type | 1 UNRESOLVED_TYPE_OF
+   | 2 UNRESOLVED_TYPE | 3 ILLEGAL_OBJECT_INHERITANCE | 5 TYPE_MISMATCH | 6 Go runtime fault | 9 no answer | 7 else. *)
+Definition lInt : lty := LMeta [([102;114;111;109]%N, None); ([116;111]%N, None)].     (* from, to *)
+
+Record c06lcase := mkLCase { lc_base : lty; lc_parts : list (str * option Z); lc_kind : nat; lc_class : nat }.
+
+Definition lpres_class (p : lpres) : nat :=
+  match p with LPObject => 0 | LPUnresolvedOf => 1 | LPUnresolvedAlias => 2 | LPIllegalParent => 3 | LPFault => 6 end%nat.
+
+Definition like_check (c : c06lcase) : bool :=
+  match lc_kind c with
+  | 0%nat => Nat.eqb (lc_class c) (lpres_class (like_parent (lc_base c) (lc_parts c)))
+  | _ =>
+    match like_resolve (lc_base c) (lc_parts c) with
+    | RType t => match resolved_parent t with
+                 | LPUnresolvedAlias => Nat.eqb (lc_class c) 2        (* the instance test asks the alias for its type *)
+                 | _ => Nat.eqb (lc_class c) 0 || Nat.eqb (lc_class c) 5
+                 end
+    | RUnresolvedOf => Nat.eqb (lc_class c) 1
+    | RUnresolvedAlias => Nat.eqb (lc_class c) 2
+    | RFault => Nat.eqb (lc_class c) 6
+    end
+  end.
+
+Definition like_mismatches (cs : list c06lcase) : list N := failing like_check cs.
